@@ -1134,14 +1134,13 @@ theorem scanSpec_eq (F : EFib) : F.scanSpec = specFrom F.layoutCoords 0 := rfl
 /-- U: handles `h … shape-1`, coordinate = payload handle = position -/
 theorem scanFrom_U (F : EFib) (hU : F.fmt = .U) (hnp : F.npay = F.shape) (m h : Nat) (hm : h + m = F.shape) :
     scanFrom F F.shape h = specFrom (posFrom h m) h := by
+  have hsub : F.shape - h = m := by omega
+  rw [scanFrom, hsub]
+  clear hsub
   induction m generalizing h with
-  | zero =>
-    rw [scanFrom]
-    simp [posFrom_zero, specFrom, show ¬ h < F.shape by omega]
+  | zero => simp [scanN, posFrom_zero, specFrom]
   | succ m ih =>
-    rw [scanFrom]
-    have hlt : h < F.shape := by omega
-    rw [if_pos hlt, posFrom_succ, specFrom_cons, ih (h + 1) (by omega)]
+    rw [scanN, posFrom_succ, specFrom_cons, ih (h + 1) (by omega)]
     simp only [hU, EFib.handleToPayload, hnp]
     rw [if_neg (by omega)]
 
@@ -1149,18 +1148,19 @@ theorem scanFrom_U (F : EFib) (hU : F.fmt = .U) (hnp : F.npay = F.shape) (m h : 
 theorem scanFrom_C (F : EFib) (hC : F.fmt = .C) (hnu : F.next ≠ some .U) (m h : Nat)
     (hm : h + m = F.coords.length) :
     scanFrom F F.coords.length h = specFrom (F.coords.drop h) h := by
+  have hsub : F.coords.length - h = m := by omega
+  rw [scanFrom, hsub]
+  clear hsub
   induction m generalizing h with
   | zero =>
-    rw [scanFrom]
     have : F.coords.drop h = [] := List.drop_eq_nil_of_le (by omega)
-    simp [this, specFrom, show ¬ h < F.coords.length by omega]
+    simp [this, specFrom, scanN]
   | succ m ih =>
-    rw [scanFrom]
     have hlt : h < F.coords.length := by omega
     have hd : F.coords.drop h = F.coords.getD h 0 :: F.coords.drop (h + 1) := by
       rw [List.drop_eq_getElem_cons hlt]
       simp [List.getD_eq_getElem?_getD, hlt]
-    rw [if_pos hlt, hd, specFrom_cons, ih (h + 1) (by omega)]
+    rw [scanN, hd, specFrom_cons, ih (h + 1) (by omega)]
     have hp : F.handleToPayload h = some h := by
       simp only [EFib.handleToPayload, hC]
       cases hnx : F.next with
@@ -1177,18 +1177,19 @@ theorem scanFrom_C (F : EFib) (hC : F.fmt = .C) (hnu : F.next ≠ some .U) (m h 
 theorem scanFrom_CU (F : EFib) (hC : F.fmt = .C) (hnu : F.next = some .U) (m h : Nat)
     (hm : h + m = F.coords.length) :
     scanFrom F F.coords.length h = (F.coords.drop h).map (fun c => (some c, some F.osf)) := by
+  have hsub : F.coords.length - h = m := by omega
+  rw [scanFrom, hsub]
+  clear hsub
   induction m generalizing h with
   | zero =>
-    rw [scanFrom]
     have : F.coords.drop h = [] := List.drop_eq_nil_of_le (by omega)
-    simp [this, show ¬ h < F.coords.length by omega]
+    simp [this, scanN]
   | succ m ih =>
-    rw [scanFrom]
     have hlt : h < F.coords.length := by omega
     have hd : F.coords.drop h = F.coords.getD h 0 :: F.coords.drop (h + 1) := by
       rw [List.drop_eq_getElem_cons hlt]
       simp [List.getD_eq_getElem?_getD, hlt]
-    rw [if_pos hlt, hd, List.map_cons, ih (h + 1) (by omega)]
+    rw [scanN, hd, List.map_cons, ih (h + 1) (by omega)]
     have hp : F.handleToPayload h = some F.osf := by
       simp only [EFib.handleToPayload, hC, hnu]; rfl
     simp only [hC, hp]
